@@ -107,7 +107,9 @@ fn alphabet(n: usize) -> Vec<Dev> {
         s.syntax.push("own-option-type".into());
         true
     }));
-    d.extend(crate::devs::syntax_devs(false, false, true, false).into_iter().filter(|d| d.label.contains("doc(hidden)")));
+    d.extend(crate::devs::syntax_devs(false, false, true, false));
+    // `disabled` sharing one attribute list with other keys (before and after it)
+    d.extend(crate::devs::rare_shape_devs(n, false).into_iter().filter(|d| d.label.contains("every disabled variant is written")));
             d.extend(crate::devs::context_devs());
     d
 }
